@@ -172,8 +172,4 @@ inductive MsgL : Msg → Bytes → Prop where
       ((m.controls = [] ∧ cb = []) ∨ (∃ body, ControlsL m.controls body ∧ TLV (tagCtx 0 true) body cb)) →
       Extras [0, 10] ex → TLV tSeq (ib ++ opb ++ cb ++ ex) bs → MsgL m bs
 
-/-- the library's own encoding is one of the permitted encodings (of the message with raw
-    control values filled in) — so C01's decode half is the special case of C04 -/
-def ownEncodingStatement : Prop := ∀ m : Msg, Msg.WF {} m → MsgL (fillRaw m) (encMsg m)
-
 end Verif.Lenient
